@@ -275,12 +275,10 @@ func (s *scope) dispose() (first bool, err error) {
 
 	var errs []error
 
-	// Cancel context
-	if s.cancel != nil {
-		s.cancel()
-	}
-
-	// Close all children first
+	// Take the children before the context is cancelled: cancellation wakes the
+	// watchers of the children that inherited the context, and a child that its
+	// watcher has already closed and detached would otherwise escape the loop
+	// below together with its disposal error.
 	s.childrenMu.Lock()
 	children := make([]*scope, 0, len(s.children))
 	for child := range s.children {
@@ -288,6 +286,13 @@ func (s *scope) dispose() (first bool, err error) {
 	}
 	s.children = nil
 	s.childrenMu.Unlock()
+
+	// Cancel context
+	if s.cancel != nil {
+		s.cancel()
+	}
+
+	// Close all children first
 
 	for _, child := range children {
 		if _, err := child.dispose(); err != nil {
